@@ -2,6 +2,14 @@
 
 package transfer
 
+import (
+	"hash/crc32"
+
+	"github.com/sheerbytes/sheerbytes/pkg/manifest"
+)
+
+func manifestItem(relPath, id string) manifest.FileItem { return manifest.FileItem{RelPath: relPath, ID: id} }
+
 // Export shims for the verification harness (overlaid at build time from /verif; never part of a
 // normal build). Thin wrappers only: no logic of their own.
 
@@ -76,3 +84,10 @@ func (v *VerifSendState) Dump() (next uint32, inFlight int, sd, es, vp, rp bool,
 	defer v.s.mu.Unlock()
 	return v.s.nextChunk, v.s.inFlight, v.s.scheduleDone, v.s.endSent, v.s.verifyPending, v.s.resendPending, v.s.resendChunk
 }
+
+// ---- misc
+
+func VerifFileKeyForItem(relPath, id string) uint64 {
+	return fileKeyForItem(manifestItem(relPath, id))
+}
+func VerifCRC32C(b []byte) uint32 { return crc32.Checksum(b, crc32cTable) }
